@@ -22,6 +22,7 @@ type Message struct {
 	source  []byte
 	seen    bool
 	el      *list.Element // This message in Store.messages
+	removed bool          // Deleted while unknown to the size enforcer; owned by the enforcer.
 }
 
 var _ storage.Message = &Message{}
